@@ -200,6 +200,10 @@ func mixCommands() []database.Command {
 	// printf verbs in the texts (must come out verbatim in every output format)
 	k++
 	out = append(out, database.Command{Command: fmt.Sprintf("zq%dx frobnicate +%%Y-%%m-%%d %%s %%d", k), Description: "Frobnicate the widget to 100%", Keywords: []string{"frobnicate", "widget", "100%"}})
+	// a command and a category of few characters and many bytes (column cutting is done in one unit or the other)
+	k++
+	out = append(out, database.Command{Command: "frobnicate \u5727\u7e2e\u3055\u308c\u305f\u30d5\u30a1\u30a4\u30eb\u306e\u4e00\u89a7\u3092\u8868\u793a\u3059\u308b", Description: "Frobnicate the widget, spelled in Japanese",
+		Keywords: []string{"frobnicate", "widget"}, Niche: "\u30d5\u30a1\u30a4\u30eb\u64cd\u4f5c\u30c4\u30fc\u30eb\u985e"})
 	// decoys
 	for j := 0; j < 3; j++ {
 		k++
